@@ -66,6 +66,8 @@ class Normalizer:
                 return ('mempayload', base[1], v[2])
             if base[0] == 'P' and v[2] == base[1]:
                 return base[2 + v[3]]
+            if base[0] == 'tuple' and v[2] is None and isinstance(v[3], int) and v[3] < len(base[1]):
+                return base[1][v[3]]                 # component of a pair of collected vectors (`unzip`)
             if v[2] in mir.ENUM_FIELDS.get('Pattern', {}):
                 return ('fld', base, v[2], mir.field_name('Pattern', v[2], v[3]))
             return ('field', base, v[2], v[3])
@@ -183,6 +185,38 @@ def build_steps(events, nz: Normalizer, loop_bodies: dict, pending_expect: dict)
                 bodies.append({'steps': bsteps, 'first_byte': nz.nbyte + 1, 'first_pop': nz.npop + 1, 'conds': []})
             steps.append(('loop', (('int', 0), cnt), bodies))
             steps.append(('silent-adapter', 'Iterator::take'))
+            continue
+        if e.name == 'Iterator::map' and len(e.args) == 2 and e.args[1][0] == 'closure' and e.args[0][0] == 'agg' and 'Range' in e.args[0][1]:
+            d_ = dict(e.args[0][2])
+            nz.names[e.result] = ('maprange', d_.get('start'), d_.get('end'), e.args[1])
+            continue
+        if e.name in ('Iterator::collect', 'Iterator::unzip') and e.args and isinstance(nz.names.get(e.args[0]), tuple) \
+                and nz.names[e.args[0]][0] == 'maprange' and EVAL is not None:
+            # `(a..b).map(|_| body).collect()` / `.unzip()`: the operand loop `for _ in a..b { v.push(body) }` (two vectors for unzip)
+            _mr, start, end, clo = nz.names[e.args[0]]
+            k_ = 2 if e.name == 'Iterator::unzip' else 1
+            vids = [('vecid', ('collect', e.block, i_)) for i_ in range(k_)]
+            bodies = []
+            for cp in EVAL.closure_paths(clo):
+                if cp.end != 'return':
+                    continue
+                bnz = Normalizer()
+                bnz.names = dict(nz.names)
+                bnz.nbyte, bnz.npop, bnz.nlist = nz.nbyte, nz.npop, nz.nlist
+                pend_: dict = {}
+                bsteps = build_steps(cp.events, bnz, {}, pend_)
+                ret = cp.ret
+                if k_ == 2:
+                    if not (isinstance(ret, tuple) and ret and ret[0] == 'tuple' and len(ret[1]) == 2):
+                        raise AnalysisError('unzip over a closure that does not return a pair')
+                    comps = list(ret[1])
+                else:
+                    comps = [ret]
+                for vid, cv in zip(vids, comps):
+                    bsteps.append(('vecpush', vid, bnz.norm(cv)))
+                bodies.append({'steps': bsteps, 'first_byte': nz.nbyte + 1, 'first_pop': nz.npop + 1, 'conds': []})
+            steps.append(('loop', (nz.norm(start), nz.norm(end)), bodies))
+            nz.names[e.result] = vids[0] if k_ == 1 else ('tuple', tuple(vids))
             continue
         rng = _range_of(e)
         if rng is not None:
